@@ -18,7 +18,7 @@ F_LITERAL = ((I(1), I(10)), (S('a'), I(20)))
 # key 0 is in both alphabets: 0 is also "no count" for Drop and "false", i.e. the key most likely to be special-cased
 # (seeded change C10a was missed before it was added)
 KEYS_T = [I(1), I(0), I(2), I(-1), R(1.5), C('a'), S('a'), S('ab'), Y('a'), S('')]
-VALS_T = [I(0), L(), L(I(1), I(2)), S('s'), Y('u'), L(I(7)), L(S('ab'))]      # incl. one-element lists (a list, not its element)
+VALS_T = [I(0), L(), L(I(1), I(2)), S('s'), L(I(7))]      # incl. a one-element list (a list, not its element)
 KEYS_Q = [I(1), I(0), R(1.5), C('a'), S('a'), Y('a'), S('ab')]
 VALS_Q = [I(0), L(I(1), I(2)), S('s'), L(I(7))]
 
